@@ -815,22 +815,23 @@ Proof.
     cbn [o_st o_tr map rel_ev e_kind e_w e_g e_side]. rewrite wsub_diag, !N.eqb_refl. reflexivity.
 Qed.
 
-Lemma C06atomic_model_ok_lemma : forall c, a_len c < 1048576 ->
+Lemma C06atomic_model_ok_lemma : forall c, a_len c < 1048576 -> a_skew c < 8 ->
   ok_C06atomic c (run_C06atomic c) = true.
 Proof.
-  intros c Hlen. unfold ok_C06atomic.
+  intros c Hlen Hsk. unfold ok_C06atomic.
   destruct (is_word (a_size c)) eqn:W; [|reflexivity]. cbn [negb].
   apply is_word_P in W.
   assert (Hn0 : 0 < a_size c) by (destruct W as [->|[->|[->| ->]]]; lia).
   unfold run_C06atomic.
   rewrite get_atomic_ref_spec by (try exact W; cbn [vs_addr vs_size]; unfold GB; rewrite W64_val; lia).
   cbn [vs_addr vs_size].
-  assert (Mg : (GB + a_goff c) mod a_size c = a_goff c mod a_size c).
-  { rewrite N.add_mod by lia. replace (GB mod a_size c) with 0
+  assert (Mg : (GB + a_skew c + a_goff c) mod a_size c = (a_skew c + a_goff c) mod a_size c).
+  { replace (GB + a_skew c + a_goff c) with (GB + (a_skew c + a_goff c)) by lia.
+    rewrite N.add_mod by lia. replace (GB mod a_size c) with 0
       by (destruct W as [->|[->|[->| ->]]]; reflexivity).
     rewrite N.add_0_l. apply N.mod_mod. lia. }
   rewrite Mg.
-  destruct (N.eqb_spec (a_goff c mod a_size c) 0) as [A|A]; cbn [negb].
+  destruct (N.eqb_spec ((a_skew c + a_goff c) mod a_size c) 0) as [A|A]; cbn [negb].
   - destruct (N.leb_spec (a_goff c + a_size c) (a_len c)) as [B|B]; [|reflexivity].
     destruct (N.leb_spec W64 (a_goff c + a_size c)); [rewrite W64_val in *; lia|].
     destruct (N.ltb_spec (a_len c) (a_goff c + a_size c)); [lia|].
